@@ -379,6 +379,12 @@ def run_real(case):
             res["second"] = "value"
         except Exception as e:          # noqa: BLE001
             res["second"] = type(e).__name__
+        # the same expression through Selector.explain_selector() (the tracing entry point builds a matcher of its own)
+        try:
+            s.explain_selector(rec)
+            res["explain"] = "value"
+        except Exception as e:          # noqa: BLE001
+            res["explain"] = type(e).__name__
         if case.get("via_make"):
             # the expression text handed to make_selector() after some other part of the process asked for the compiled
             # engine with the same text: text means the sandboxed interpreter
@@ -444,6 +450,9 @@ def oracle(case, obs):
     if case["refused"] and "error" in obs and obs.get("second") == "value":
         return (f"`{case['src']}`: refused on the first match() of a Selector object, evaluated without error on the second "
                 f"match() of the same object")
+    if case["refused"] and "error" in obs and obs.get("explain") == "value":
+        return (f"`{case['src']}`: refused by match() but evaluated without error by explain_selector() of the same Selector "
+                f"object")
     if case["refused"] and obs.get("make") == "value":
         return (f"`{case['src']}`: make_selector(text) hands out a {obs.get('make_class')} that evaluates the refused shape "
                 f"({case['shape']}) after the compiled engine was requested for the same text")
